@@ -18,7 +18,7 @@ FAILURE == 1
 NoSes == [ phase |-> "none", codec |-> 0, role |-> "none", both |-> FALSE, k |-> 0, n |-> 0, len |-> 0, m |-> 0, npos |-> 0,
            payload |-> "id", H |-> <<>>, claim |-> FALSE, claimed |-> -1, cbMode |-> "none",
            rcvd |-> {}, known |-> {}, done |-> FALSE, finished |-> FALSE, mlok |-> FALSE,
-           appHeld |-> {}, appMaybe |-> {}, viaCb |-> {}, cbs |-> {}, built |-> <<>>, everComplete |-> FALSE ]
+           appHeld |-> {}, appMaybe |-> {}, viaCb |-> {}, cbs |-> {}, built |-> <<>>, zeroed |-> {}, everComplete |-> FALSE ]
 
 Src(s) == 0 .. (s.k - 1)
 IsRS(s) == s.codec \in {1, 2}
